@@ -888,6 +888,9 @@ class VMDKInspector(FileInspector):
 
     def _initialize(self):
         self.desc_text = None
+        # Until a descriptor has been parsed successfully we have not found
+        # any format in it.
+        self.vmdktype = 'formatnotfound'
         # This is the header for "Hosted Sparse Extent" type files. It may
         # or may not be used, depending on what kind of VMDK we are about to
         # read.
